@@ -461,6 +461,10 @@ def run(report, p):
                 os_ = pr.origins(core, fn)
             except AnalysisError:
                 os_ = []
+            if os_ and all(o == ("const", None) or is_call(o, "find_first_hash_entry_for_path") or is_call(o, "find_original_hash_entry_for_path") for o in os_):
+                # the MISSING path's record has no digest at all (a folder recorded with -n): nothing to compare
+                absent_ = lab == "F" if core is e else ((isinstance(e.ops[0], ast.Is) and lab == "T") or (isinstance(e.ops[0], ast.IsNot) and lab == "F"))
+                return one("just" if absent_ else "neutral")
             if os_ and all(o == ("const", None) or is_call(o, "find_hash_entry_for_format") for o in os_):
                 absent = lab == "F" if core is e else ((isinstance(e.ops[0], ast.Is) and lab == "T") or (isinstance(e.ops[0], ast.IsNot) and lab == "F"))
                 return one("fmt0" if absent else "neutral")
@@ -545,6 +549,40 @@ def run(report, p):
             if opaque:
                 raise AnalysisError(f"{cf.loc(call)}: whether `{norm(call)[:50]}` is kept away from directories is decided in `{opaque[0][:50]}`, which this rule does not evaluate")
         r9.check(bool(no_dir), cf, call, f"`{norm(call)[:60]}` reads the new path as a file for every pair that has no digest in the recorded format, also when the new path is a directory: a tree with a renamed file and a new folder (create -dr with another hash format than the recorded one, or with -n, or any folder inside a nested history) aborts with IsADirectoryError and no generation is written", construct="hash_file on a directory in the rename matching")
+
+    # ------------------------------------------------------------------ R17.11
+    r11 = report.rule(
+        "R17.11",
+        "a recorded path may have no hash entry at all (a folder recorded with -n): in the matching loop the result of `find_first_hash_entry_for_path` / "
+        "`find_original_hash_entry_for_path` for the missing path is dereferenced only under a test that it is not None (the pair is skipped otherwise) - "
+        "create -dr -n after a move that emptied and removed a folder aborted with AttributeError, nothing written",
+        1,
+    )
+    for asg in [n for n in ast.walk(pl) if isinstance(n, ast.Assign) and len(n.targets) == 1 and isinstance(n.targets[0], ast.Name) and isinstance(n.value, ast.Call) and isinstance(n.value.func, ast.Attribute) and n.value.func.attr in ("find_first_hash_entry_for_path", "find_original_hash_entry_for_path")]:
+        nm_ = asg.targets[0].id
+        uses = [n for n in ast.walk(pl) if isinstance(n, ast.Attribute) and isinstance(n.value, ast.Name) and n.value.id == nm_ and isinstance(n.ctx, ast.Load)]
+        r11.instance(cf, asg, f"{nm_} = {norm(asg.value)[:60]} ({len(uses)} dereference(s))")
+        bad_use = None
+        for u in uses:
+            guarded = False
+            for t_, l_ in gcf.necessary_branches(gcf.node_for(u)):
+                if not _inside_node(t_.ast, pl):
+                    continue
+                for a_, l2 in atomic_deps(t_.ast, l_):
+                    if (a_ == nm_ and l2 == "T") or (a_ == f"{nm_} is None" and l2 == "F"):
+                        guarded = True
+            # short-circuit in the same expression
+            x_, up_ = u, parent(u)
+            while up_ is not None and not isinstance(up_, ast.stmt):
+                if isinstance(up_, ast.BoolOp) and isinstance(up_.op, ast.And):
+                    idx_ = next((i_ for i_, v_ in enumerate(up_.values) if any(y is x_ for y in ast.walk(v_))), 0)
+                    for v_ in up_.values[:idx_]:
+                        if any((a_ == nm_ and l2 == "T") or (a_ == f"{nm_} is None" and l2 == "F") for a_, l2 in atomic_deps(v_, "T")):
+                            guarded = True
+                x_, up_ = up_, parent(up_)
+            if not guarded and bad_use is None:
+                bad_use = u
+        r11.check(bad_use is None, cf, bad_use if bad_use is not None else asg, f"`{norm(bad_use)[:50] if bad_use is not None else ''}` dereferences the first recorded entry of the missing path without a test that there is one: a folder recorded without directory hashes (-n) has no entry, so `create -dr -n` on a tree where a recorded folder was removed (its file moved elsewhere) aborts with AttributeError instead of reporting the folder missing", construct=f"{nm_} dereferenced without None test")
 
     # ------------------------------------------------------------------ R17.10
     r10 = report.rule(
